@@ -84,6 +84,18 @@ func (Engine) Generate(prop string, r *kit.Rand, tier string) *kit.Scenario[Conf
 	for i := 0; i < extra; i++ {
 		add(r.Intn(c.N), r.Intn(c.N))
 	}
+	// C18: often a topology with many equal-cost paths (two routers joined through all the others)
+	multipath := prop == "C18" && c.N >= 5 && r.Chance(0.35)
+	if multipath {
+		c.Links = nil
+		for k := range has {
+			delete(has, k)
+		}
+		for mid := 2; mid < c.N; mid++ {
+			add(0, mid)
+			add(1, mid)
+		}
+	}
 	c.AdvertMs = kit.Pick(r, []int{1000, 2000, 5000})
 	c.DeadMs = c.AdvertMs * kit.Pick(r, []int{2, 3, 6})
 	if prop == "C19" && r.Chance(0.3) && c.N > 2 {
@@ -149,6 +161,22 @@ func (Engine) Generate(prop string, r *kit.Rand, tier string) *kit.Scenario[Conf
 				}
 			}
 		}
+	}
+	if multipath {
+		// converge, then lose one of the equal-cost paths, then let the normal op mix run
+		for round := 0; round < 3; round++ {
+			for x := 0; x < c.N; x++ {
+				sc.Ops = append(sc.Ops, Op{Op: "tick", R: x})
+			}
+			for d := 0; d < 8*c.N; d++ {
+				sc.Ops = append(sc.Ops, Op{Op: "deliver", K: r.Intn(4)})
+			}
+			sc.Ops = append(sc.Ops, Op{Op: "advance", Ms: 100})
+		}
+		l := kit.Pick(r, c.Links)
+		sc.Ops = append(sc.Ops, Op{Op: "linkdown", A: l[0], B: l[1]})
+		down[l] = true
+		nops = r.Range(0, 12)
 	}
 	for i := 0; i < nops; i++ {
 		switch r.Weighted([]int{wTick, wDeliver, wDrop, wDup, wAdv, wLink, wCrash, wPfx, wReface, wDead, wMgmt}) {
@@ -378,6 +406,8 @@ type world struct {
 	signer  ndn.Signer
 	zombies []*dv.Router
 	zfaces  []*simFace
+	parent  *world            // set for the reference world built at the fixed point (C18 tie-break check)
+	finalNH map[string]string // "router>dest" -> next hop at the fixed point
 }
 
 func rname(i int) string { return fmt.Sprintf("/ndn/r%d", i) }
@@ -536,6 +566,9 @@ func lpWrap(frame []byte, inFace uint64) []byte {
 // process handles everything the routers have put on their faces. Returns the number of packets handled.
 func (w *world) process() int {
 	handled := 0
+	if w.parent != nil {
+		handled += w.parent.process()
+	}
 	for _, f := range w.zfaces { // earlier incarnations: acknowledge management commands, discard the rest
 		out := f.drain()
 		for _, raw := range out {
@@ -1418,6 +1451,14 @@ func (w *world) settle() {
 				w.fail("C18/reachable-destination-missing", "", "router %d has no entry for r%d although it is %d hops away in the final topology", n.id, d, bd)
 			}
 		}
+		for _, e := range rib {
+			if e.NextHop1 != nil && e.Cost1 < dvconfig.CostInfinity {
+				if w.finalNH == nil {
+					w.finalNH = map[string]string{}
+				}
+				w.finalNH[fmt.Sprintf("r%d>%s", n.id, e.Dest)] = e.NextHop1.String()
+			}
+		}
 		if w.sc.Property == "C19" {
 			// at quiescence every reachable owner's log is fully applied
 			for _, pr := range pfx {
@@ -1447,6 +1488,42 @@ func (w *world) settle() {
 					}
 				}
 			}
+		}
+	}
+	// "ties are broken the same way every time": routers started afresh on the final topology, fed in plain
+	// first-in-first-out order, must choose the same next hops as this history did.
+	if w.sc.Property == "C18" && w.parent == nil && w.res.Violation == nil {
+		c2 := Config{N: c.N, AdvertMs: c.AdvertMs, DeadMs: c.DeadMs}
+		for l, up := range w.linkUp {
+			if up && w.nodes[l[0]].alive && w.nodes[l[1]].alive {
+				c2.Links = append(c2.Links, l)
+			}
+		}
+		sort.Slice(c2.Links, func(i, j int) bool {
+			return c2.Links[i][0] < c2.Links[j][0] || (c2.Links[i][0] == c2.Links[j][0] && c2.Links[i][1] < c2.Links[j][1])
+		})
+		for _, n := range w.nodes {
+			if !n.alive {
+				c2.Late = append(c2.Late, n.id)
+			}
+		}
+		sc2 := &kit.Scenario[Config, Op]{Property: "C18", Config: c2, Ops: []Op{{Op: "settle"}}}
+		w2 := &world{sc: sc2, res: &kit.Result{}, linkUp: map[[2]int]bool{}, everLink: map[[2]int]bool{}, faceOf: map[[2]int]uint64{},
+			pending: map[string]map[int]bool{}, notified: map[string]uint64{}, signer: w.signer, parent: w}
+		w2.run()
+		if w2.res.Violation == nil {
+			keys := make([]string, 0, len(w.finalNH))
+			for k := range w.finalNH {
+				keys = append(keys, k)
+			}
+			sort.Strings(keys)
+			for _, k := range keys {
+				if nh2, ok := w2.finalNH[k]; ok && nh2 != w.finalNH[k] {
+					w.fail("C18/tie-break-depends-on-history", "", "%s: next hop %s after this history, %s when the same topology converges from a fresh start", k, w.finalNH[k], nh2)
+					break
+				}
+			}
+			w.ctx.Probe("fresh-world-comparison")
 		}
 	}
 }
